@@ -3,11 +3,13 @@ import os, re, subprocess, time, tempfile, threading, signal
 from .term import Term, Emitter, evaluate, And, Not, OrL, AndL
 
 SOLVERS = {
+    'z3smt': ['z3-new', '-smt2', 'tactic.default_tactic=smt'],     # lazy SMT core: best on the Boolean-heavy guard formulas
     'z3new': ['z3-new', '-smt2'],
     'z3': ['z3', '-smt2'],
     'cvc5': ['cvc5', '--lang=smt2', '--produce-models', '--bitblast=eager'],
+    'cvc5lazy': ['cvc5', '--lang=smt2', '--produce-models'],
 }
-DEFAULT_PORTFOLIO = ('z3new', 'cvc5')
+DEFAULT_PORTFOLIO = ('z3smt', 'z3new', 'cvc5')
 
 
 class Result:
@@ -79,8 +81,9 @@ def run_query(text, timeout, portfolio=DEFAULT_PORTFOLIO, workdir=None, tag='q')
             break
     if res.status == 'unknown':
         res.error = '; '.join(errs) if errs else ('timeout %.0fs' % timeout)
-    try: os.unlink(path)
-    except OSError: pass
+    if not os.environ.get('XSYM_KEEP_SMT'):
+        try: os.unlink(path)
+        except OSError: pass
     return res
 
 
